@@ -9,6 +9,7 @@ import NanoVerif.Model.Bitmap
 import NanoVerif.Model.Reorder
 import NanoVerif.Model.Naming
 import NanoVerif.Model.Csv
+import NanoVerif.Model.Valid
 /-
 Correspondence driver.  One JSON object per input line: {"op": ..., ...}; one JSON object per
 output line.  Run: `lake env lean --run Driver.lean < ops.jsonl`.
@@ -112,8 +113,57 @@ def getBConfig (j : Json) : Except String BConfig := do
 
 def strOf (l : List Char) : String := String.ofList l
 
+def getGlyphEl (j : Json) : Except String SvgGlyphEl := do
+  return ⟨← getNat (← field j "gid"), ← getStrs (← field j "ids"), ← getStrs (← field j "hrefs")⟩
+
+def getDoc (j : Json) : Except String SvgDoc := do
+  return ⟨← getNat (← field j "start"), ← getNat (← field j "end"), ← getStrs (← field j "ids"), ← getStrs (← field j "hrefs"),
+          ← (← getArr (← field j "glyphs")).mapM getGlyphEl⟩
+
+def getStrike (j : Json) : Except String (Nat × Nat × List Nat) := do
+  return (← getNat (← field j "start"), ← getNat (← field j "end"), ← getNats (← field j "gids"))
+
+def getPair (j : Json) : Except String (Nat × Nat) := do
+  match ← getNats j with
+  | [a, b] => return (a, b)
+  | _ => throw "pair"
+
+def getAbsFont (j : Json) : Except String AbsFont := do
+  return {
+    numGlyphs := ← getNat (← field j "numGlyphs")
+    colrBaseGids := ← getNats (← field j "colrBaseGids")
+    colrRefGids := ← getNats (← field j "colrRefGids")
+    colrPaletteRefs := ← getNats (← field j "colrPaletteRefs")
+    colrLayerRefs := ← (← getArr (← field j "colrLayerRefs")).mapM getPair
+    colrNumLayers := ← getNat (← field j "colrNumLayers")
+    numPaletteEntries := ← getNat (← field j "numPaletteEntries")
+    svgDocs := ← (← getArr (← field j "svgDocs")).mapM getDoc
+    cblcStrikes := ← (← getArr (← field j "cblcStrikes")).mapM getStrike
+    cmapGids := ← getNats (← field j "cmapGids")
+    hmtxLen := ← getNat (← field j "hmtxLen")
+    maxpNumGlyphs := ← getNat (← field j "maxpNumGlyphs")
+    outlineGlyphs := ← getNat (← field j "outlineGlyphs")
+    postFormat3 := ← getBool (← field j "postFormat3")
+    isTrueType := ← getBool (← field j "isTrueType")
+    keepNames := ← getBool (← field j "keepNames")
+    svgNamesRequired := ← getBool (← field j "svgNamesRequired") }
+
 def dispatch (op : String) (j : Json) : Except String Json := do
   match op with
+  | "valid-font" =>
+      let f ← getAbsFont (← field j "font")
+      let clauses : List (String × Bool) := [
+        ("colr-sorted", strictlyIncreasing f.colrBaseGids),
+        ("colr-refs", f.colrBaseGids.all (· < f.numGlyphs) && f.colrRefGids.all (· < f.numGlyphs)),
+        ("palette-refs", f.colrPaletteRefs.all (fun i => i == 0xFFFF || i < f.numPaletteEntries)),
+        ("layer-refs", f.colrLayerRefs.all (fun p => p.1 + p.2 ≤ f.colrNumLayers)),
+        ("svg-ranges", docsSortedDisjoint f.svgDocs && f.svgDocs.all (fun d => d.stop < f.numGlyphs)),
+        ("svg-docs", f.svgDocs.all docOk),
+        ("cblc-runs", f.cblcStrikes.all (fun s => consecutiveFrom s.1 s.2.2 && decide (s.2.2.length = s.2.1 + 1 - s.1) && decide (s.2.1 < f.numGlyphs)) &&
+                      strictlyIncreasing (f.cblcStrikes.flatMap fun s => s.2.2)),
+        ("glyph-set", f.cmapGids.all (· < f.numGlyphs) && decide (f.hmtxLen = f.numGlyphs) && decide (f.maxpNumGlyphs = f.numGlyphs) && decide (f.outlineGlyphs = f.numGlyphs)),
+        ("post", (!f.isTrueType || f.keepNames || f.svgNamesRequired || f.postFormat3))]
+      return obj [("valid", Json.bool (validFont f)), ("failed", jStrs ((clauses.filter (fun c => !c.2)).map (·.1)))]
   | "glyph-name" =>
       let cps ← getNats (← field j "cps")
       let h ← getStr (← field j "hash")
